@@ -9,21 +9,18 @@
 	} while (0)
 
 /* ---- skeleton builders: real objects, real list code, everything else nondet ---- */
-static void *vp_new(size_t sz)
-{
-	void *p = malloc(sz); /* contents nondeterministic */
-	__CPROVER_assume(p != NULL);
-	return (p);
-}
+/* typed allocation (malloc(sizeof(T)) keeps the object's struct type: field-sensitive); contents nondeterministic */
+static void *vp_nn(void *p) { __CPROVER_assume(p != NULL); return (p); }
+#define VP_NEW(T) ((T *) vp_nn(malloc(sizeof(T))))
 static sub0_topic *vp_mk_topic(nni_list *l, bool on)
 {
-	sub0_topic *t   = vp_new(sizeof(*t));
+	sub0_topic *t   = VP_NEW(sub0_topic);
 	t->node.ln_next = NULL;
 	t->node.ln_prev = NULL;
 	__CPROVER_assume(t->len <= SUB_MAXTOPIC);
 	t->buf = NULL; /* NNI_ALLOC_STRUCT zeroes; a buffer exists only for len > 0 */
 	if (t->len > 0) {
-		t->buf = vp_new(t->len);
+		t->buf = vp_nn(malloc(t->len));
 	}
 	if (on) {
 		real_list_append(l, t);
@@ -43,7 +40,7 @@ static void vp_mk_sock(size_t nc, size_t nt, size_t nu)
 {
 	__CPROVER_assume(nc >= 1 && nc <= 2 && nt <= 3 && nu <= 3);
 	g_nc = nc; g_nt = nt; g_nu = nu;
-	g_s  = vp_new(sizeof(*g_s));
+	g_s  = VP_NEW(sub0_sock);
 	real_list_init_offset(&g_s->contexts, offsetof(sub0_ctx, node));
 	vp_mk_ctx(&g_s->master);
 	g_t0 = vp_mk_topic(&g_s->master.topics, nt > 0);
@@ -55,18 +52,18 @@ static void vp_mk_sock(size_t nc, size_t nt, size_t nu)
 	g_pollw_addr = NULL;
 	g_c1 = NULL; g_u0 = NULL; g_u1 = NULL; g_u2 = NULL;
 	if (nc == 2) {
-		g_c1 = vp_new(sizeof(*g_c1));
+		g_c1 = VP_NEW(sub0_ctx);
 		vp_mk_ctx(g_c1);
 		g_u0 = vp_mk_topic(&g_c1->topics, nu > 0);
 		g_u1 = vp_mk_topic(&g_c1->topics, nu > 1);
 		g_u2 = vp_mk_topic(&g_c1->topics, nu > 2);
 		g_qb_addr = &g_c1->recv_queue;
 	}
-	g_pp       = vp_new(sizeof(*g_pp));
+	g_pp       = VP_NEW(sub0_pipe);
 	g_pp->sub  = g_s;
 }
 
-void h_sub0_matches(void) { uint8_t *body; size_t len; VP_HAVOC_GHOSTS(); vp_mk_sock(1, nondet_size_t(), 0); sub0_matches(&g_s->master, body, len); VP_CANARY(); }
+void h_sub0_matches(void) { uint8_t *body; size_t len; VP_HAVOC_GHOSTS(); vp_mk_sock(nondet_size_t(), nondet_size_t(), nondet_size_t()); sub0_matches((g_nc == 2 && nondet_bool()) ? g_c1 : &g_s->master, body, len); VP_CANARY(); }
 #ifndef SUB_NC
 #define SUB_NC 1
 #endif
